@@ -277,6 +277,6 @@ func TestC11_order(t *testing.T) {
 	kit.Check(t, kit.Prop[c11Case]{
 		ID: "C11", Quick: 4000, Thor: 400_000,
 		Rule: "every way of constructing a queue limiter/pool x arrivals at distinct virtual instants, releases, time-outs and cancellations; each op's returning callers compared with a reference backlog in the documented order; non-trivial = a release with >=3 waiting and a caller that left (time-out/cancel) while others kept waiting",
-		Gen:  genC11, Run: runC11,
+		Gen:  genC11, Run: runC11, Timeout: 30 * time.Second,
 	})
 }
